@@ -17,6 +17,7 @@ package lib
 import (
 	"fmt"
 	"math/rand"
+	"net"
 	"sort"
 	"strings"
 	"sync"
@@ -652,7 +653,7 @@ func RunW(s *Srv, sc *WScn) *WHist {
 	}
 	wg.Wait()
 	// let the scripted terminal actions that are still due (beats, delayed responses, the close) happen
-	for end := time.Now().Add(6 * time.Second); time.Now().Before(end); time.Sleep(300 * time.Microsecond) {
+	for end := time.Now().Add(8 * time.Second); time.Now().Before(end); time.Sleep(300 * time.Microsecond) {
 		r.mu.Lock()
 		done := r.closed || (r.todo == 0 && !(sc.CloseTime > 0 || sc.CloseFrames > 0 && r.cmdN >= sc.CloseFrames) &&
 			!(sc.CloseReplies > 0 && time.Since(r.t0) < 3*time.Second))
@@ -989,12 +990,12 @@ func GenW(kind string, seed int64) *WScn {
 		k = rng.Intn(2)
 		for i := 0; i < k; i++ {
 			c := mk(i, ms(200))
-			c.Start = ms(5090 + rng.Intn(20))
+			c.Start = ms(5130 + rng.Intn(20)) // after the heartbeat whose Read generates the re-request
 			sc.Calls = append(sc.Calls, c)
 			sc.Acts = append(sc.Acts, WAct{Kind: "now"})
 		}
 		if kind == "stall-close" {
-			sc.CloseTime = 5100*time.Millisecond + time.Duration(rng.Intn(4000))*time.Microsecond
+			sc.CloseTime = 5100*time.Millisecond + time.Duration(rng.Intn(40000))*time.Microsecond
 			sc.RST = rng.Intn(2) == 0
 		}
 	case "flood-close": // 30..400 heartbeats in one segment (msgChan holds 10), then close / RST while the reader still pushes
@@ -1170,4 +1171,129 @@ func (sc *WScn) Describe() string {
 	}
 	return fmt.Sprintf("kind=%s seed=%d phone=%s prejoin=%v preadvance=%d calls=[%s] acts=[%s] beats=%v flood=%d closeReplies=%d closeFrames=%d closeTime=%v rst=%v",
 		sc.Kind, sc.Seed, sc.Phone, sc.PreJoin, sc.PreAdvance, strings.Join(cs, " "), strings.Join(as, " "), sc.Beats, sc.Flood, sc.CloseReplies, sc.CloseFrames, sc.CloseTime, sc.RST)
+}
+
+// ---------------------------------------------------------------- witnesses of the two recorded findings
+
+// RunReuse: finding C12/serial-reuse.  Command A (no timeout) is written and never answered; 65 535 heartbeats
+// later the serial counter is back at A's serial; command B (no timeout) is written with it and record[seq] is
+// overwritten; the terminal disconnects.  Required: both callers are released by the disconnect.
+func RunReuse(s *Srv, seed int64) *WHist {
+	h := &WHist{Join: "o", Kinds: map[string]int{}, NCalls: 2}
+	phone := fmt.Sprintf("177%08d", seed%100000000)
+	t, err := DialTerm(s.Addr, phone)
+	if err != nil {
+		return h
+	}
+	defer t.Close()
+	t.Send(0x0002, nil)
+	if _, ok, _ := t.Next(3 * time.Second); !ok {
+		return h
+	}
+	chA := s.Call(phone, 0x8103, []byte{0xA0, byte(seed)}, -1)
+	fa, ok, _ := t.Next(3 * time.Second)
+	if !ok {
+		return h
+	}
+	for left := 65535; left > 0; {
+		n := left
+		if n > 400 {
+			n = 400
+		}
+		var buf []byte
+		for i := 0; i < n; i++ {
+			buf = append(buf, TFrame(0x0002, t.Phone, t.NextSerial(), nil)...)
+		}
+		t.SendRaw(buf)
+		for i := 0; i < n; i++ {
+			if _, ok, _ := t.Next(3 * time.Second); !ok {
+				return h
+			}
+		}
+		left -= n
+	}
+	chB := s.Call(phone, 0x8104, []byte{0xB0, byte(seed)}, -1)
+	fb, ok, _ := t.Next(3 * time.Second)
+	if !ok {
+		return h
+	}
+	t.Close()
+	ra, rb := Await(chA, 3*time.Second), Await(chB, 3*time.Second)
+	h.Kinds[ra.Kind]++
+	h.Kinds[rb.Kind]++
+	if ra.Kind == "hang" || rb.Kind == "hang" {
+		h.Viol = append(h.Viol, WViol{Sig: "serial-reuse",
+			What:     "a command whose serial was handed out again while it was still outstanding is never answered, not even when the terminal disconnects",
+			Observed: fmt.Sprintf("command A written with serial %d, 65535 heartbeats, command B written with serial %d, disconnect: A %s, B %s", fa.Serial, fb.Serial, ra.Kind, rb.Kind),
+			Required: "both callers released with ErrNotExistKey"})
+	}
+	return h
+}
+
+// RunNoRead: finding C12/blocked-write (C13/blocked-write).  Terminal A joins, then never reads again while it
+// floods heartbeats: the replies fill the socket buffers, the writer blocks in conn.Write (no write deadline).
+// k calls to A and one call to a healthy terminal B, all with a 200 ms timeout.  Required: every call returns
+// within its timeout plus slack.
+func RunNoRead(s *Srv, seed int64) *WHist {
+	h := &WHist{Join: "o", Kinds: map[string]int{}, NCalls: 7}
+	phoneA, phoneB := fmt.Sprintf("178%08d", seed%100000000), fmt.Sprintf("179%08d", seed%100000000)
+	c, err := net.DialTimeout("tcp", s.Addr, 3*time.Second)
+	if err != nil {
+		return h
+	}
+	defer c.Close()
+	tc := c.(*net.TCPConn)
+	tc.SetReadBuffer(4096)
+	tc.Write(TFrame(0x0002, phoneA, 0, nil))
+	buf := make([]byte, 64)
+	tc.SetReadDeadline(time.Now().Add(3 * time.Second))
+	if n, _ := tc.Read(buf); n == 0 {
+		return h
+	}
+	go func() { // flood until the server stops reading (its reader is blocked behind the blocked writer)
+		one := TFrame(0x0002, phoneA, 1, nil)
+		var chunk []byte
+		for i := 0; i < 2000; i++ {
+			chunk = append(chunk, one...)
+		}
+		for {
+			tc.SetWriteDeadline(time.Now().Add(2 * time.Second))
+			if _, err := tc.Write(chunk); err != nil {
+				return
+			}
+		}
+	}()
+	time.Sleep(1200 * time.Millisecond)
+	tb, err := DialTerm(s.Addr, phoneB)
+	if err != nil {
+		return h
+	}
+	defer tb.Close()
+	tb.Send(0x0002, nil)
+	tb.Next(2 * time.Second)
+	var chs []<-chan CallRes
+	for i := 0; i < 6; i++ {
+		chs = append(chs, s.Call(phoneA, 0x8103, []byte{byte(i)}, 200*time.Millisecond))
+	}
+	time.Sleep(100 * time.Millisecond)
+	chB := s.Call(phoneB, 0x8103, []byte{9}, 200*time.Millisecond)
+	var obs []string
+	bad := false
+	for i, ch := range chs {
+		r := Await(ch, 2200*time.Millisecond-time.Duration(i)*time.Millisecond)
+		h.Kinds[r.Kind]++
+		obs = append(obs, fmt.Sprintf("A%d:%s", i, r.Kind))
+		bad = bad || r.Kind == "hang"
+	}
+	rb := Await(chB, 2200*time.Millisecond)
+	h.Kinds[rb.Kind]++
+	obs = append(obs, "B:"+rb.Kind)
+	bad = bad || rb.Kind == "hang"
+	if bad {
+		h.Viol = append(h.Viol, WViol{Sig: "blocked-write",
+			What:     "a terminal that stops reading blocks the connection writer in conn.Write (no write deadline): no timer is armed or applied, the commands queued behind it fill activeMsgChan and the session manager blocks for every terminal",
+			Observed: "6 calls to the non-reading terminal A and 1 call to the healthy terminal B, timeout 200 ms each, 2.2 s later: " + strings.Join(obs, " "),
+			Required: "every call returns (timeout error) within its timeout plus slack"})
+	}
+	return h
 }
